@@ -7,11 +7,13 @@
     independent reader and judged by TLC (Trace_C04) with the same predicates plus the
     derived-field recomputations."""
 import io
+import struct
 import logging
 import os
 import random
 
 from . import audit, common, fonts
+from . import rawsfnt as R
 from .common import MachineryError
 
 LEVEL = "model_checking"
@@ -34,8 +36,14 @@ def _record(data, label, scen, derived=False, rng=None):
     rec["label"] = label
     rec["scen"] = scen
     rec["hasDerived"] = False
+    rec["derivedError"] = ""
     if derived:
-        d = audit.derived_record(c, rng=rng)
+        try:
+            d = audit.derived_record(c, rng=rng)
+        except (struct.error, IndexError, ValueError, KeyError, R.RawError) as e:
+            # the independent reader cannot parse a table of the written file: a verdict for TLC, not a harness crash
+            d = None
+            rec["derivedError"] = "%s: %s" % (type(e).__name__, str(e)[:80])
         if d is not None and d.get("flavor") == "glyf" and "glyphs" in d:
             d["hasLoca"] = "loca" in d
             d["hasHhea"] = "hhea" in d
@@ -94,7 +102,7 @@ def job_recalc(args):
     rng = random.Random("%s-%d" % (src if isinstance(src, str) else kind, seed))
     out = []
     label = common.rel(src) if kind == "path" else src[0]
-    pads = [1, 2, 4] if thorough else [rng.choice([1, 2, 4])]
+    pads = [0, 1, 2, 4] if thorough else [0, rng.choice([1, 2, 4])]  # 0 = unpadded glyph records (odd offsets force long loca)
     flavors = [None, "woff", "woff2"] if thorough else [None, rng.choice(["woff", "woff2"])]
     for pad in pads:
         for fl in flavors:
@@ -128,7 +136,24 @@ def job_synth(args):
     label = "synthetic#%d" % i
     f.recalcBBoxes = True
     f.recalcTimestamp = False
-    for pad in ([1, 2, 4] if thorough else [rng.choice([1, 2, 4])]):
+    # private tables whose zlib stream is one byte shorter than / exactly as long as / one byte longer than the table:
+    # the WOFF "store uncompressed unless strictly smaller" decision sits exactly there
+    import zlib
+    from fontTools.ttLib import newTable
+
+    want = {-1: None, 0: None, 1: None}
+    for n in range(6, 40):
+        for pat in (bytes([0, 64]), bytes([7]), bytes([1, 2, 3]), bytes([0, 0, 0, 9])):
+            payload = (pat * n)[:n]
+            d = len(zlib.compress(payload, 6)) - len(payload)
+            if d in want and want[d] is None:
+                want[d] = payload
+    for k, (d, payload) in enumerate(sorted(want.items())):
+        if payload is not None:
+            t = newTable("zz%02d" % k)
+            t.data = payload
+            f["zz%02d" % k] = t
+    for pad in ([0, 1, 2, 4] if thorough else [0, rng.choice([1, 2, 4])]):
         for fl in (None, "woff", "woff2"):
             try:
                 f["glyf"].padding = pad
@@ -197,8 +222,14 @@ def job_neutral(args):
 
     base, _g, bt = content(datas[None], "sfnt")
     for fl in ("woff", "woff2"):
-        other, gl, ot = content(datas[fl], fl)
         names = sorted(base)
+        try:
+            other, gl, ot = content(datas[fl], fl)
+        except (struct.error, IndexError, ValueError, KeyError, R.RawError):
+            # the independent reader cannot read the flavoured file at all: no table content is preserved
+            out.append({"what": "neutral", "label": label, "flavor": fl, "tagsBase": [list(n) for n in names], "tagsOther": [],
+                        "idsBase": [base[n] for n in names], "idsOther": [-1 for _ in names], "names": [n.decode("latin-1") for n in names]})
+            continue
         if fl == "woff2":
             names = [n for n in names if n != b"DSIG"]
             if gl is not None:
